@@ -113,6 +113,20 @@ def check_case(case, ev):
             out, _trace = run_scheduled(ctx, g, values, case.get("sched", []))
         _oracle(f"{runner}:{flavour}", case, out, ctx, env, args, ss, select)
 
+    # the same graph OBJECT run a second time with fewer inputs: what the first run supplied for an optional name is gone, the
+    # bound value / signature default applies again
+    ctx = Ctx()
+    g = make_graph(ctx, gspec, "sync")
+    dropped = [p_ for p_ in values if p_ in set(g.inputs.optional)]
+    if dropped:
+        run_sync(g, values)
+        ctx.reset()
+        v2 = {k: v for k, v in values.items() if k not in dropped}
+        out = run_sync(g, v2)
+        env2, args2 = ref.eval_dag(nodes, v2, bound)
+        _oracle("sync:second_run_with_fewer_inputs", case, out, ctx, env2, args2, ref.single_shot(nodes, v2, bound), select)
+        labels.add("second_run_with_fewer_inputs")
+
     # injection of an intermediate value with on_internal_override="ignore" (only when the validator accepts it):
     # the statement's precedence still decides every argument (upstream output of a runnable producer first, then
     # the run-time value), so the same reference applies with the injected names among the run-time values.
